@@ -446,7 +446,7 @@ def gen_hfp_at(rng, tier, seed):
         lines.append(ln)
     return {'lines': lines, 'ag': [n for n in AG_FEATURES if rng.random() < 0.6], 'ag_hf_ind': rng.sample([1, 2], rng.randint(0, 2)), 'ag_codecs': [1, 2],
             'chld': rng.sample(['0', '1', '1x', '2', '2x', '3', '4'], rng.randint(0, 7)), 'extra_ind': True, 'slc_first': rng.random() < 0.7,
-            'profile': rng.choice(['zero', 'lan', 'radio']), '_lists': ['lines']}
+            'profile': rng.choice(['zero', 'lan', 'radio', 'burst']), '_lists': ['lines']}
 
 
 def run_hfp_at(case):
